@@ -219,7 +219,7 @@ func main() {
 		return
 	}
 	defer drv.Close()
-	run.Res.Rule = "source texts: (a) all token sequences over the 37-symbol alphabet (14 punctuators, 18 keywords, name, int, float, string, block string) up to length 3 quick / 4 thorough, single-space separated; (b) all sequences over the 12-symbol alphabet [ ] ! { } ( ) : $ = a 1 up to length 6 / 8 inside 5 contexts (raw, variable type, argument value, field type, variable default), enumerated as the viable-prefix tree; (b') all sequences over the 37-symbol alphabet plus the strings \"on\" and \"implements\" up to length 2 / 3 inside 20 production contexts (variable type/default, argument value, selection, spread, field tail, operation head, fragment head, object head/field/argument definition, union members, enum/input/schema bodies, directive head/locations, extend, after a description); (c) gen.DocGen documents (executable and type-system, Exotic); (d) 1-3 token-level mutations (insert/delete/swap/replace) of (c); (e) a malformed lexeme of each lexical error class (bad character, control character, unterminated string / block string, bad escape, bad unicode escape, bad number, `..`, line break in string) placed right after every token sequence up to length 2 / 3 over the 39-symbol alphabet and after every sequence up to length 1 / 2 inside the 20 production contexts, tokens separated by space / LF / CR / CRLF, with and without trailing tokens, and after a random cut of every mutated document: the offset parser.Parse reports (its own rejection at the current token, or the lexical error of the next lexeme) must be the one the model's lazy-lexing layer selects. Compared: accept/reject real vs M and vs S, AST incl. every location real vs M, error offset real vs M, source body unchanged. non-trivial = the token list has >= 2 tokens before EOF and the real parser got past the first token (accepted, or error offset > start of the first token); distinct by source text"
+	run.Res.Rule = "source texts: (a) all token sequences over the 37-symbol alphabet (14 punctuators, 18 keywords, name, int, float, string, block string) up to length 3 quick / 4 thorough, single-space separated; (b) all sequences over the 12-symbol alphabet [ ] ! { } ( ) : $ = a 1 up to length 6 / 8 inside 5 contexts (raw, variable type, argument value, field type, variable default), enumerated as the viable-prefix tree; (b') all sequences over the 37-symbol alphabet plus the strings \"on\" and \"implements\" up to length 2 / 3 inside 20 production contexts (variable type/default, argument value, selection, spread, field tail, operation head, fragment head, object head/field/argument definition, union members, enum/input/schema bodies, directive head/locations, extend, after a description); (c) gen.DocGen documents (executable and type-system, Exotic); (d) 1-3 token-level mutations (insert/delete/swap/replace) of (c); (e) a malformed lexeme of each lexical error class (bad character, control character, unterminated string / block string, bad escape, bad unicode escape, bad number, `..`, line break in string) placed right after every token sequence up to length 2 / 3 over the 39-symbol alphabet and after every sequence up to length 1 / 2 inside the 20 production contexts, tokens separated by space / LF / CR / CRLF, with and without trailing tokens, and after a random cut of every mutated document: the offset parser.Parse reports (its own rejection at the current token, or the lexical error of the next lexeme) must be the one the model's lazy-lexing layer selects. Compared: accept/reject real vs M and vs S, AST incl. every location real vs M, error offset real vs M, source body unchanged; on every rejected case outside D-03b (typeRefMalformed): the model's grammar must certify a completion of the tokens before the blamed one (recogniser accepts prefix ++ completion) and parser.Parse must accept the text before the blamed token followed by that completion (ASCII texts). non-trivial = the token list has >= 2 tokens before EOF and the real parser got past the first token (accepted, or error offset > start of the first token); distinct by source text"
 
 	lexErrors := 0
 	staleKF := 0
